@@ -24,8 +24,6 @@ def _protocol(kinds, maxtasks, syn, silence, consumed, mem, want):
     """no signals: the message grammar, quota, NACK, unserialisable results"""
     ctl = H.Ctl(0, lambda: None)
     H.install(ctl)
-    consumed = realize(consumed)
-    maxtasks = realize(maxtasks)
     ctl.mem = list(mem) if mem is not None else []
     n = len(kinds)
     tasks = [(bp.TASK, (100 + j, None, H.task, (ctl, 100 + j, kinds[j]), {})) for j in range(n)]
@@ -128,71 +126,80 @@ def _lists_ok(kinds, syn, silence):
             and len(silence) == NT and 0 <= silence[0] <= 2 and all(0 <= s <= SILENT for s in silence[1:]))
 
 
-def _kpart(kinds):
-    # NPART is 1 or 9: outcome kinds of the first two tasks.  An unserialisable result (kind 3) is
-    # only scripted for the last task here (paths through it are ~5x slower under the tracer);
-    # h_unpicklable covers it in every position with the other outcomes concrete.
-    return NPART == 1 or (kinds[0] == PART % 3 and kinds[1] == (PART // 3) % 3)
+def _kinds(nd, n, top):
+    return [nd.draw(0, top) for _ in range(n)]
 
 
-def _spart(syn):
-    # NPART is 1 or 4: answers to the first two jobs
-    return NPART == 1 or (syn[0] == PART % 2 and syn[1] == (PART // 2) % 2)
-
-
-def h_protocol(kinds: List[int], maxtasks: int, consumed: int) -> bool:
+def h_protocol(code: int) -> bool:
     """
-    pre: len(kinds) == NT and all(0 <= k <= 3 for k in kinds) and 0 <= maxtasks <= NT and 0 <= consumed <= NT and _kpart(kinds)
+    pre: 0 <= code < CODEMAX
     post: _
     """
+    # NPART = 9: outcome kinds of the first two tasks.  An unserialisable result (kind 3) is only scripted for the last
+    # task here (paths through it are slower under the tracer); h_unpicklable covers it in every position.
     try:
-        return _protocol(kinds, maxtasks, None, None, consumed, None, None)
+        nd = NDCode(code)
+        kinds = [PART % 3, (PART // 3) % 3] + [nd.draw(0, 3) for _ in range(NT - 2)] if NPART > 1 else _kinds(nd, NT - 1, 2) + [nd.draw(0, 3)]
+        return _protocol(kinds, nd.draw(0, NT), None, None, nd.draw(0, NT), None, None)
     except Prune:
         return True
 
 
-def h_protocol_twin(kinds: List[int], maxtasks: int, consumed: int) -> bool:
+def h_protocol_twin(code: int) -> bool:
     """
-    pre: len(kinds) == NT and all(0 <= k <= 3 for k in kinds) and 0 <= maxtasks <= NT and 0 <= consumed <= NT and _kpart(kinds)
+    pre: 0 <= code < CODEMAX
     post: _
     """
     try:
-        return _protocol(kinds, maxtasks, None, None, consumed, None, 'recycle')
+        nd = NDCode(code)
+        kinds = [PART % 3, (PART // 3) % 3] + [nd.draw(0, 3) for _ in range(NT - 2)] if NPART > 1 else _kinds(nd, NT - 1, 2) + [nd.draw(0, 3)]
+        return _protocol(kinds, nd.draw(0, NT), None, None, nd.draw(0, NT), None, 'recycle')
     except Prune:
         return True
 
 
-def h_synack(kinds: List[int], maxtasks: int, syn: List[int], silence: List[int]) -> bool:
+def _syn_args(code):
+    nd = NDCode(code)
+    syn = [PART % 2, (PART // 2) % 2] + [nd.draw(0, 1) for _ in range(NT - 2)] if NPART > 1 else [nd.draw(0, 1) for _ in range(NT)]
+    kinds = _kinds(nd, NT, KSYN)
+    silence = [nd.draw(0, 2)] + [nd.draw(0, SILENT) for _ in range(NT - 1)]
+    return kinds, nd.draw(0, NT), syn, silence
+
+
+def h_synack(code: int) -> bool:
     """
-    pre: _lists_ok(kinds, syn, silence) and 0 <= maxtasks <= NT and _spart(syn)
+    pre: 0 <= code < CODEMAX
     post: _
     """
     try:
+        kinds, maxtasks, syn, silence = _syn_args(code)
         return _protocol(kinds, maxtasks, syn, silence, NT, None, None)
     except Prune:
         return True
 
 
-def h_synack_twin(kinds: List[int], maxtasks: int, syn: List[int], silence: List[int]) -> bool:
+def h_synack_twin(code: int) -> bool:
     """
-    pre: _lists_ok(kinds, syn, silence) and 0 <= maxtasks <= NT and _spart(syn)
+    pre: 0 <= code < CODEMAX
     post: _
     """
     try:
+        kinds, maxtasks, syn, silence = _syn_args(code)
         return _protocol(kinds, maxtasks, syn, silence, NT, None, 'nack')
     except Prune:
         return True
 
 
-def h_unpicklable(pos: int, maxtasks: int, consumed: int) -> bool:
+def h_unpicklable(code: int) -> bool:
     """
-    pre: 0 <= pos < 7 and 0 <= maxtasks <= NT and 0 <= consumed <= NT
+    pre: 0 <= code < CODEMAX
     post: _
     """
-    pos = realize(pos)
-    kinds = [3 if (pos + 1) & (1 << j) else 0 for j in range(3)]      # every non-empty set of positions
     try:
-        return _protocol(kinds, maxtasks, None, None, consumed, None, None)
+        nd = NDCode(code)
+        pos = nd.draw(0, 6)
+        kinds = [3 if (pos + 1) & (1 << j) else 0 for j in range(3)]      # every non-empty set of positions
+        return _protocol(kinds, nd.draw(0, NT), None, None, nd.draw(0, NT), None, None)
     except Prune:
         return True
 
@@ -281,29 +288,37 @@ def _termination(kinds, catch, maxtasks, sigat, signum, second_at, want):
     return True
 
 
-def _pre_term(kinds, catch, maxtasks, sigat, signum):
-    # PART splits the crash point range; signum: any number the handler may be installed for
-    return (len(kinds) == NT - 1 and all(0 <= k <= 3 for k in kinds) and 0 <= maxtasks <= NT - 1
-            and 0 <= sigat <= MAXPOINT and sigat % NPART == PART and SIGNUMS[0] <= signum <= SIGNUMS[-1])
+def _term_args(code):
+    # NPART splits the crash point range (sigat % NPART == PART); the signal number stays a solver integer of its own
+    nd = NDCode(code)
+    kinds = _kinds(nd, NT - 2, 2) + [nd.draw(0, 3)]
+    catch = nd.flag()
+    maxtasks = (NT - 1) * nd.draw(0, 1)
+    sigat = nd.draw(0, 9) * NPART + PART if NPART > 1 else nd.draw(0, 9) * 9 + nd.draw(0, 8)
+    if sigat > MAXPOINT:
+        raise Prune()
+    return kinds, catch, maxtasks, sigat
 
 
-def h_termination(kinds: List[int], catch: bool, maxtasks: int, sigat: int, signum: int) -> bool:
+def h_termination(code: int, signum: int) -> bool:
     """
-    pre: _pre_term(kinds, catch, maxtasks, sigat, signum)
+    pre: 0 <= code < CODEMAX and SIGNUMS[0] <= signum <= SIGNUMS[-1]
     post: _
     """
     try:
+        kinds, catch, maxtasks, sigat = _term_args(code)
         return _termination(kinds, catch, maxtasks, sigat, signum, 0, None)
     except Prune:
         return True
 
 
-def h_termination_twin(kinds: List[int], catch: bool, maxtasks: int, sigat: int, signum: int) -> bool:
+def h_termination_twin(code: int, signum: int) -> bool:
     """
-    pre: _pre_term(kinds, catch, maxtasks, sigat, signum)
+    pre: 0 <= code < CODEMAX and SIGNUMS[0] <= signum <= SIGNUMS[-1]
     post: _
     """
     try:
+        kinds, catch, maxtasks, sigat = _term_args(code)
         return _termination(kinds, catch, maxtasks, sigat, signum, 0, 'sig')
     except Prune:
         return True
@@ -315,7 +330,6 @@ def h_termination_twin(kinds: List[int], catch: bool, maxtasks: int, sigat: int,
 def _soft(kinds, catch, sigat, want):
     def handler():
         bp.soft_timeout_sighandler(_signal.SIGUSR1, None)     # the real handler
-    sigat = realize(sigat)
     ctl = H.Ctl(sigat, handler)
     H.install(ctl)
     n = len(kinds)
@@ -357,28 +371,40 @@ def _soft(kinds, catch, sigat, want):
     return True
 
 
-def _soft_part(kinds, catch, sigat):
-    # NPART is 1 or 6: the first task's outcome kind (unserialisable results are h_unpicklable's), whether tasks catch
-    return NPART == 1 or (kinds[0] == PART % 3 and catch == ((PART // 3) % 2 == 1))
+def _soft_args(code):
+    # NPART = 6: the first task's outcome kind (unserialisable results are h_unpicklable's) and whether tasks catch
+    nd = NDCode(code)
+    if NPART > 1:
+        kinds = [PART % 3] + _kinds(nd, NT - 2, 2)
+        catch = (PART // 3) % 2 == 1
+    else:
+        kinds = _kinds(nd, NT - 1, 2)
+        catch = nd.flag()
+    sigat = 1 + nd.draw(0, 9) * 9 + nd.draw(0, 8)
+    if sigat > MAXPOINT:
+        raise Prune()
+    return kinds, catch, sigat
 
 
-def h_soft(kinds: List[int], catch: bool, sigat: int) -> bool:
+def h_soft(code: int) -> bool:
     """
-    pre: len(kinds) == NT - 1 and all(0 <= k <= 3 for k in kinds) and 1 <= sigat <= MAXPOINT and _soft_part(kinds, catch, sigat)
+    pre: 0 <= code < CODEMAX
     post: _
     """
     try:
+        kinds, catch, sigat = _soft_args(code)
         return _soft(kinds, catch, sigat, False)
     except Prune:
         return True
 
 
-def h_soft_twin(kinds: List[int], catch: bool, sigat: int) -> bool:
+def h_soft_twin(code: int) -> bool:
     """
-    pre: len(kinds) == NT - 1 and all(0 <= k <= 3 for k in kinds) and 1 <= sigat <= MAXPOINT and _soft_part(kinds, catch, sigat)
+    pre: 0 <= code < CODEMAX
     post: _
     """
     try:
+        kinds, catch, sigat = _soft_args(code)
         return _soft(kinds, catch, sigat, True)
     except Prune:
         return True
